@@ -2,9 +2,10 @@
    Statements only; proofs in Proofs/MemFs*.v.  The hypothesis `wf_seq m_init ops = true`
    (Model/WfOps.v) is computable: every call satisfies the ordinary POSIX preconditions in the
    state reached so far. *)
-From AF Require Import Lib.Bytes Lib.Path Lib.Ops Gen.Consts Model.MemFile Model.MemFs Model.WfOps
+From AF Require Import Proofs.MemFileProof.
+From AF Require Import Lib.Bytes Lib.Path Lib.Ops Gen.Consts Model.MemFile Model.MemFs Model.WfOps Model.Posix
   Proofs.MemFsPath Proofs.MemFsBasics Proofs.MemFsWF Proofs.MemFsStep Proofs.MemFsRename Proofs.MemFsInv
-  Proofs.MemFsNoop Proofs.MemFsList.
+  Proofs.MemFsNoop Proofs.MemFsList Proofs.MemFsSim.
 Local Open Scope Z_scope.
 
 (* 1. The per-directory child index mirrors the path map after every well-formed sequence
@@ -94,6 +95,33 @@ Theorem C01_rename_moves_subtree : forall s p q,
 Proof. exact rename_moves_subtree. Qed.
 Print Assumptions C01_rename_moves_subtree.
 
+(* 5. POSIX specification and simulation.  Model/Posix.v is an independent specification: a flat
+      tree (clean absolute path -> inode), an inode table (IDir perm | IFile bytes perm), handles
+      bound to inodes with a byte offset and a directory offset; Mkdir needs an existing parent
+      directory, MkdirAll creates the missing ancestors, Remove refuses non-empty directories,
+      RemoveAll drops every name at or below, Rename rewrites the prefix of every name at or below
+      the source, listings are the sorted base names of the names with that parent, byte I/O is the
+      flat array of Model/ByteFile.v (the C02 specification).  For EVERY sequence whose calls satisfy
+      the preconditions (wf_seq_sim: wf_op, plus byte I/O only through handles on regular files and
+      directory reading only through handles on directories that still have a name):
+        - every call has the same projected outcome in both machines (mproj: success / not-exist /
+          already-exists / closed / other, the handle number, the bytes read and the EOF flag, the
+          count written, the new offset, kind and size of Stat, the names of a directory page), and
+        - the final states expose the same tree: for every path the same kind and contents and the
+          permission bits wherever they were set explicitly, and for every directory the same listing.
+      Handle I/O is discharged by the C02 lemmas sim_read … sim_truncate of Proofs/MemFileProof.v. *)
+Theorem C01_simulation : forall ops, wf_seq_sim m_init ops = true ->
+  mproj_all ops (snd (run_steps m_step m_init ops)) = snd (p_run p_init ops) /\
+  Observe (fst (run_steps m_step m_init ops)) (fst (p_run p_init ops)).
+Proof. exact simulation. Qed.
+Print Assumptions C01_simulation.
+
+(* the one-step form, from any related pair of states *)
+Theorem C01_simulation_step : forall s t o, Rsim s t -> wf_op_sim s o = true ->
+  Rsim (fst (m_step s o)) (fst (p_step t o)) /\ mproj o (snd (m_step s o)) = snd (p_step t o).
+Proof. exact sim_step. Qed.
+Print Assumptions C01_simulation_step.
+
 (* ---------- non-vacuity ---------- *)
 Local Open Scope N_scope.
 Definition c01_demo : list op :=
@@ -152,3 +180,10 @@ Example C01_ex_rename :
     = Some (false, [1;2;3], mode_temporary, (BIG + 3)%Z) /\
   entry_at (fst (m_step c01_demo4 (Rename [47;97;47;98] [47;120;47;121]))) [47;97;47;98;47;102] = None.
 Proof. vm_compute. repeat split; auto; discriminate. Qed.
+
+(* the demo sequences satisfy the stronger precondition, and the specification computes *)
+Example C01_ex_sim : wf_seq_sim m_init c01_demo = true /\ wf_seq_sim m_init c01_demo3 = true /\
+  snd (p_run p_init c01_demo3) =
+  [ PSucc; PHandle 0; PHandle 1; PSucc; PHandle 2; PNames [[97];[98]] false; PNames [[99]] false; PNames [] true;
+    PHandle 3; PNames [[97];[98];[99]] false ].
+Proof. vm_compute. auto. Qed.
